@@ -254,6 +254,14 @@ func run(sel int, in []int64) []int64 {
 			panic("round trip left the integers")
 		}
 		return []int64{int64(back)}
+	case 5:
+		return runMinDRA(parseJob(&tokReader{t: in}))
+	case 6:
+		return runDRAOps(in)
+	case 7:
+		return runNewResource(in)
+	case 8:
+		return runConvert(in)
 	case 10, 11:
 		tr := &tokReader{t: in, i: 1}
 		r := decRes(tr)
@@ -380,6 +388,21 @@ func laws(sel int, in, got []int64, law func(lsel int, lin []int64, sig string))
 		law(103, append(append([]int64{}, in...), got[0]), "")
 	case 4:
 		law(104, []int64{in[0], got[0]}, "")
+	case 5:
+		lawsMinDRA(in, got, law)
+	case 6:
+		// got = tag, Add result, tag, Sub result
+		g := []int64{}
+		for _, v := range got {
+			if v != -101 && v != -102 {
+				g = append(g, v)
+			}
+		}
+		law(107, append(append([]int64{}, in...), g...), "")
+	case 7:
+		lawsNewResource(in, law)
+	case 8:
+		lawsConvert(in, law)
 	case 10, 11:
 		grid = 16.0
 		if sel == 11 {
@@ -441,7 +464,34 @@ func gen(rng *vh.Rng, n int, emit func(id string, sel int, in []int64, kind stri
 			}
 			in = append(in, c, t)
 		}
-		emit(fmt.Sprintf("dra-%d", i), 3, in, "dra_accumulate", m >= 2, nil)
+		emit(fmt.Sprintf("dra-%d", i), 3, in, "sat_add_mul_chain", m >= 2, nil)
+	}
+	// GetMinDRAResources on real JobInfo objects: directed boundary jobs, then random ones
+	for i, j := range directedJobs() {
+		emit(fmt.Sprintf("min-dra-directed-%d", i), 5, j.tokens(), "min_dra/directed", true, nil)
+	}
+	{
+		r := rng.Fork()
+		for i := 0; i < n+1; i++ {
+			j, kind := genJob(r)
+			emit(fmt.Sprintf("min-dra-%d", i), 5, j.tokens(), kind, contributing(j) >= 2, nil)
+		}
+		for i := 0; i < n/2+1; i++ {
+			emit(fmt.Sprintf("dra-ops-%d", i), 6, genDRAOps(r), "dra_resource/add_sub_clone", true, nil)
+		}
+	}
+	// quantities <-> Resource: NewResource, ConvertRes2ResList and both round trips
+	directedQuant(emit)
+	{
+		r := rng.Fork()
+		for i := 0; i < n+1; i++ {
+			in := genRl(r)
+			emit(fmt.Sprintf("new-resource-%d", i), 7, in, "new_resource", in[0] >= 2, nil)
+		}
+		for i := 0; i < n+1; i++ {
+			in := genResUnit(r)
+			emit(fmt.Sprintf("convert-%d", i), 8, in, "convert_res2reslist", in[3] >= 1, nil)
+		}
 	}
 	// quantity round trip: integers up to 2^53 (exactly representable), all four unit rules
 	for i := 0; i < n/2+1; i++ {
